@@ -152,6 +152,9 @@ func runC01(tier string, seed uint64, o *Out) error {
 		c.late = []int64{0, 0, size, 3 * size}[rng.Intn(4)]
 		n := 5 + rng.Intn(36)
 		ops := genTimeOps(rng, size, c.ooo, n, nil, rng.Intn(4) == 0)
+		if i%25 == 3 {
+			ops = overflowThenQuiet(rng, size, nil)
+		}
 		if err := emit(c, ops, fmt.Sprintf("event size=%d", size)); err != nil {
 			return err
 		}
